@@ -258,13 +258,21 @@ def check_block(case):
     if raised(bd):
         f.add(f"block/deser-raises-{bd.kind}", bd)
         return cls, f
+    if not isinstance(bd, dict):
+        f.add("block/deser-header-field", f"not a dict: {bd!r}"[:120])
+        return cls, f
     for k, v in want_fields.items():
         if bd.get(k) != v:
             f.add("block/deser-header-field", f"{k}: {bd.get(k)!r}")
             break
     got_txs = bd.get("txns", [])
-    if f.expect(len(got_txs) == len(txs), "block/tx-count", f"{len(got_txs)} vs {len(txs)}"):
+    if not isinstance(got_txs, (list, tuple)):
+        f.add("block/tx-count", f"no list of transactions: {got_txs!r}"[:120])
+    elif f.expect(len(got_txs) == len(txs), "block/tx-count", f"{len(got_txs)} vs {len(txs)}"):
         for i, (g, t, rw) in enumerate(zip(got_txs, txs, raws)):
+            if not isinstance(g, dict):
+                f.add("block/tx-id-or-raw-ne-reference", f"tx {i}: not a dict: {g!r}"[:120])
+                break
             ok = g.get("txid") == txref.txid(t).hex() and g.get("wtxid") == txref.wtxid(t).hex() and g.get("raw") == rw.hex()
             if not ok:
                 f.add("block/tx-id-or-raw-ne-reference", f"tx {i}: txid {g.get('txid')}")
